@@ -18,9 +18,9 @@ import (
 var c13Alphabet = []string{"a", "b", "*", `\`}
 
 type c13Case struct {
-	Pattern string `json:"pattern"`
+	Pattern string  `json:"pattern"`
 	Str     *string `json:"str,omitempty"` // nil = all strings of the bound
-	MaxLen  int    `json:"max_len"`
+	MaxLen  int     `json:"max_len"`
 }
 
 func (c *c13Case) Weight() int {
@@ -74,10 +74,12 @@ func C13() *engine.Check {
 		return r
 	}
 	main := &engine.Sub{
-		Name: "like-vs-glob-language",
+		Name:   "like-vs-glob-language",
 		Repeat: true,
-		Rule: `every pattern x every string over {a,b,*,\} up to the length bound; pattern installed with policy.Like(".", p) and through policy.FromIPLD, evaluated with Policy.Match on the string; oracle = membership in the glob language by dynamic programming; non-trivial = string contains '*' or '\' or pattern contains an escape`,
-		Bound: func(t string) string { return fmt.Sprintf("patterns and strings of length <=%d over 4 symbols", tierN(t, 5, 7)) },
+		Rule:   `every pattern x every string over {a,b,*,\} up to the length bound; pattern installed with policy.Like(".", p) and through policy.FromIPLD, evaluated with Policy.Match on the string; oracle = membership in the glob language by dynamic programming; non-trivial = string contains '*' or '\' or pattern contains an escape`,
+		Bound: func(t string) string {
+			return fmt.Sprintf("patterns and strings of length <=%d over 4 symbols", tierN(t, 5, 7))
+		},
 		Setup: func(tier string) error {
 			strs[tierN(tier, 5, 7)] = stringsOf(tierN(tier, 5, 7))
 			return nil
@@ -146,8 +148,8 @@ func C13() *engine.Check {
 		},
 	}
 	nonString := &engine.Sub{
-		Name: "like-on-non-strings",
-		Rule: "like with patterns {*, a*, \\*} against every non-string IPLD kind must be false; non-trivial = all",
+		Name:  "like-on-non-strings",
+		Rule:  "like with patterns {*, a*, \\*} against every non-string IPLD kind must be false; non-trivial = all",
 		Bound: func(string) string { return "3 patterns x 8 non-string values" },
 		Gen: func(tier string, emit func(any) bool) {
 			for _, p := range []string{"*", "a*", `\*`, ""} {
